@@ -26,6 +26,8 @@ def of_float(v) -> Fraction:
 
 def eq(v, x, ulps=0) -> bool:
     """Does float value v equal rational x (exactly, or within `ulps` float32 ulp)?"""
+    if not np.isfinite(float(v)):
+        return False  # NaN / inf never equals a rational: a verdict, not a harness failure
     fx = Fraction(float(v))
     if fx == q(x):
         return True
